@@ -112,8 +112,12 @@ class CFG:
                     ends = [(x, "exc" if kind == "exc" else None)]
                 else:
                     ends = self.block(fr.body, frames[:i], [(j, None)])
-                    if kind == "exc":
-                        ends = [(n, "exc") for n, _ in ends]
+                    if kind == "exc" and ends:
+                        # keep the branch labels of the finally body; the
+                        # exception continues to propagate from a join node
+                        k = self.new("join", tag="reraise")
+                        self.connect(ends, k)
+                        ends = [(k, "exc")]
                 if not ends:
                     return
             elif fr.type == "loop" and kind in ("break", "continue"):
@@ -167,7 +171,8 @@ class CFG:
         if isinstance(e, ast.UnaryOp) and isinstance(e.op, ast.Not):
             t_, f_ = self.cond(e.operand, frames, preds)
             return f_, t_
-        n = self.stmt_node(e, frames, preds, kind="test")
+        # reading a bare name cannot raise (the truth test of a module constant / local flag)
+        n = self.stmt_node(e, frames, preds, kind="test", may_raise=not isinstance(e, ast.Name))
         return [(n, "T")], [(n, "F")]
 
     def block(self, stmts, frames, preds):
